@@ -788,17 +788,19 @@ def _register_bare_trace():
 
     @jax.tree_util.register_pytree_node_class
     class BareTrace:
-        def __init__(self, inner, call_args, addr):
+        def __init__(self, inner, call_args, addr, inner_args=(), kind="?"):
             self.inner = inner
             self.call_args = call_args
             self.addr = addr
+            self.inner_args = inner_args  # what the bare generative function itself was called with
+            self.kind = kind
 
         def tree_flatten(self):
-            return (self.inner, self.call_args), self.addr
+            return (self.inner, self.call_args, self.inner_args), (self.addr, self.kind)
 
         @classmethod
-        def tree_unflatten(cls, addr, children):
-            return cls(children[0], children[1], addr)
+        def tree_unflatten(cls, aux, children):
+            return cls(children[0], children[1], aux[0], children[2], aux[1])
 
         @property
         def _choices(self):
@@ -874,7 +876,7 @@ class BareGF:
         return tuple(a)
 
     def _wrap(self, tr, params):
-        return _BARE_TRACE(tr, tuple(params), self.addr)
+        return _BARE_TRACE(tr, tuple(params), self.addr, tuple(self.call_args(params)), self.st["k"])
 
     def simulate(self, *params):
         return self._wrap(self.gf.simulate(*self.call_args(params)), params)
